@@ -13,7 +13,10 @@ the module tests; equal category counts; `W` = concatenation of the module
 weights; a one-channel gamma=1 FusionART against the bare module; invariance of
 the labels under a permutation of the channels; every elementary class as a
 channel, incl. those whose weight is longer than the channel (regression guard for F07,
-fixed in /repo 9bccfb4)."""
+fixed in /repo 9bccfb4); gamma_values re-configured on a live estimator (attribute assignment,
+`params['gamma_values']` replaced or mutated in place, `set_params`; before the first training, between two
+fits, between two partial_fits): every activation computed while and after training is the sum of
+(reported gamma) * module activation, and the clustering equals that of a twin holding the same vector."""
 from __future__ import annotations
 
 import operator
@@ -701,6 +704,257 @@ def oracle_perm(ctx, N, nmax):
                       "per-module weights differ after permuting channels", rep)
 
 
+# ------------------------------------------------------------------ oracle: gamma_values re-configured after construction
+#
+# The activation ratios are a hyper-parameter like any other: besides the constructor and `set_params`, BaseART routes
+# plain attribute assignment (`f.gamma_values = [...]`) into `f.params`, and `f.params['gamma_values']` is a public,
+# mutable container.  Whatever the route and whenever it happens (before the first training, between two `fit`s, between
+# two `partial_fit`s), the statement is about the gamma vector the estimator *holds* (= reports through `get_params`):
+# every activation computed during and after training is the sum of reported gamma_k * module activation, and the
+# clustering is that of a FusionART constructed with that vector.
+
+GAMMA_ROUTES = ["attr", "params-item", "params-inplace", "set_params"]
+GAMMA_MOMENTS = ["before-training", "between-fits", "between-partial-fits"]
+
+
+def set_gamma(f, g, route, as_array=False):
+    """re-configure the activation ratios of a live FusionART through one of the public routes"""
+    val = np.array(g, dtype=float) if as_array else [float(t) for t in g]
+    with quiet():
+        if route == "attr":
+            f.gamma_values = val
+        elif route == "params-item":
+            f.params["gamma_values"] = val
+        elif route == "params-inplace":
+            cur = f.params["gamma_values"]      # the container the estimator holds, mutated element by element
+            for j, t in enumerate(val):
+                cur[j] = float(t)
+        else:
+            f.set_params(gamma_values=val)
+
+
+def reported_gamma(f):
+    with quiet():
+        return [float(t) for t in f.get_params()["gamma_values"]]
+
+
+class ChoiceLog:
+    """records every fused activation computed while training together with the module activations it was
+    summed from and the gamma vector in force (set by the driver) — on top of an ActLog"""
+
+    def __init__(self, f):
+        self.act = f.__dict__.get("_actlog") or ActLog(f)
+        self.gamma = None
+        self.calls = []        # (gamma in force, x, w, T, terms)
+        inner = f.category_choice
+        log = self
+
+        def category_choice(i, w, params, **kw):
+            T, c = inner(i, w, params, **kw)
+            if log.gamma is not None and not kw.get("skip_channels"):
+                log.calls.append((log.gamma, np.array(i, dtype=float), np.array(w, dtype=float)) + log.act.last)
+            return T, c
+        object.__setattr__(f, "category_choice", category_choice)
+
+
+def wsum_ok(T, want) -> bool:
+    T, want = float(T), float(want)
+    return abs(T - want) <= 1e-12 * max(1.0, abs(want)) or (T != T and want != want)
+
+
+def drive(f, prog, mode, eps, vt, log=None):
+    """run a program of ("fit", X) / ("pfit", X) / ("gamma", (values, route, as_array)) on one estimator;
+    the veto table is indexed by the number of samples presented since the last fit began"""
+    counter = {"i": 0}
+    o_step = f.step_fit
+
+    def step(x, *a, _o=o_step, _c=counter, **kw):
+        try:
+            return _o(x, *a, **kw)
+        finally:
+            _c["i"] += 1
+    object.__setattr__(f, "step_fit", step)
+
+    def reset(i_, w_, c_, params=None, cache=None):
+        return not vt[counter["i"]][c_]
+    kw = dict(match_reset_func=reset if vt is not None else None, match_tracking=mode, epsilon=eps)
+    if log is not None:
+        log.gamma = reported_gamma(f)
+    with quiet(), time_limit(20):
+        for op, arg in prog:
+            if op == "fit":
+                counter["i"] = 0       # fit starts from scratch, and so does the reset function's view of the stream
+                f.fit(arg, **kw)
+            elif op == "pfit":
+                f.partial_fit(arg, **kw)
+            else:
+                set_gamma(f, *arg)
+                if log is not None:
+                    log.gamma = reported_gamma(f)
+    if log is not None:
+        log.gamma = None
+
+
+def state_of(f, q):
+    with quiet():
+        return ([int(t) for t in f.labels_], [np.asarray(w, dtype=float) for w in f.W],
+                [[np.asarray(w, dtype=float) for w in m.W] for m in f.modules], [int(t) for t in f.predict(q)])
+
+
+def oracle_regamma(ctx, N, nmax):
+    cov = ctx.cov
+    for i in range(N):
+        r = gen.rng_for(ctx.seed, "C10-regamma", i)
+        if i % 3 == 2:
+            k = r.randint(2, 3)
+            pos = r.randrange(k)
+            lc = LONG[(i // 3) % len(LONG)]
+            cls = [lc if j == pos else r.choice(EXACT_CH) for j in range(k)]
+            ds = [r.randint(1, 2) for _ in range(k)]
+            sp = [specs.elem_spec(r, c, specs.width(c, d) if c != "FuzzyART" else d) for c, d in zip(cls, ds)]
+            dims = [specs.width(c, d) for c, d in zip(cls, ds)]
+            g0 = list(r.choice(GAMMAS[k]))
+        else:
+            cls, ds, sp, dims, g0 = gen_channels(r, 2, 4)
+        k = len(cls)
+        # the new vector: another weighting of the table, a rotation of the old one, or a one-hot vector
+        hot = r.randrange(k)
+        cand = [list(g) for g in GAMMAS[k]] + [g0[1:] + g0[:1]] + [[1.0 if j == hot else 0.0 for j in range(k)]]
+        cand = [g for g in cand if g != g0 and sum(g) == 1.0]
+        g1 = r.choice(cand)
+        route = GAMMA_ROUTES[i % len(GAMMA_ROUTES)]
+        moment = GAMMA_MOMENTS[(i // len(GAMMA_ROUTES)) % len(GAMMA_MOMENTS)]
+        arr0, arr1 = r.random() < 0.3, r.random() < 0.3     # gamma_values held / assigned as a float array
+        floats = r.random() < 0.5
+        n = r.randint(2, nmax)
+        X = np.hstack(channel_data(r, cls, ds, n, floats=floats))
+        n1 = r.randint(1, n - 1)
+        X1, X2 = X[:n1], X[n1:]
+        mode = r.choice(MODES)
+        eps = r.choice([0.0, 2.0 ** -20, 2.0 ** -10, 0.125])
+        vt = gen.veto_table(r, 2 * n + 2, 2 * n + 3) if r.random() < 0.4 else None
+        gam_op = ("gamma", (g1, route, arr1))
+        other = r.choice([t for t in GAMMA_ROUTES if t != route])
+        if moment == "before-training":
+            tail = [("fit", X)] if r.random() < 0.5 else [("pfit", B) for B in gen.split(X, gen.compositions(r, n))]
+            prog = [gam_op] + tail
+            twin_g, twin_prog, twin_what = g1, tail, "a FusionART constructed with the new gamma_values"
+        elif moment == "between-fits":
+            # fit starts from scratch: what was learnt under the old weighting must not matter
+            prog = [("fit", X1), gam_op, ("fit", X)]
+            twin_g, twin_prog, twin_what = g1, [("fit", X)], "a FusionART constructed with the new gamma_values"
+        else:
+            prog = [("pfit", X1), gam_op, ("pfit", X2)]
+            twin_g, twin_prog = g0, [("pfit", X1), ("gamma", (g1, other, arr1)), ("pfit", X2)]
+            twin_what = f"the same history with the values handed over through the route '{other}'"
+        spec = fusion_spec(sp, dims, g0)
+        if arr0:
+            spec["gamma_values"] = np.array(g0, dtype=float)
+        tspec = fusion_spec(sp, dims, twin_g)
+        rep = {"spec": spec, "classes": cls, "gamma_constructed": g0, "gamma_assigned": g1, "route": route, "moment": moment,
+               "assigned_as_array": arr1, "program": prog, "mode": mode, "eps": eps, "veto": vt, "X": X,
+               "twin": {"spec": tspec, "program": twin_prog}}
+        sig07 = f07_sig(cls)
+        off = np.cumsum([0] + dims)
+        key = (cls, sp, dims, g0, g1, route, moment, arr0, arr1, X.tolist(), n1, mode, eps, vt)
+        try:
+            f = make(spec)
+            log = ChoiceLog(f)
+            drive(f, prog, mode, eps, vt, log)
+            err = None
+        except Exception as e:
+            err = e
+        try:
+            t = make(tspec)
+            drive(t, twin_prog, mode, eps, vt)
+            terr = None
+        except Exception as e:
+            terr = e
+        if err is not None or terr is not None:
+            cov.case(key, False)
+            if err is not None and terr is not None:
+                cov.hit(f"regamma:both-raise:{exc_enum(err)}")      # a module's own failure: other clauses
+            elif err is not None:
+                ctx.issue("violation", sig07 or f"FusionART:gamma_values-reassigned({route},{moment}):{exc_enum(err)}",
+                          f"training after re-assigning gamma_values {g0} -> {g1} raised {err!r}; {twin_what} trains", rep)
+            else:
+                ctx.issue("violation", sig07 or f"FusionART:gamma_values-reassigned({other},{moment}):{exc_enum(terr)}",
+                          f"{twin_what} raised {terr!r}; the route '{route}' trains", rep)
+            continue
+        ncat = len(f.modules[0].W)
+        cov.case(key, ncat >= 2)
+        cov.hit(f"regamma:route={route}")
+        cov.hit(f"regamma:moment={moment}")
+        if arr1:
+            cov.hit("regamma:assigned-as-array")
+        if sig07:
+            cov.hit("regamma:longer-weight-channel")
+        # (0) what the estimator reports: get_params, the attribute and params agree, and it is what was handed over
+        g_rep = reported_gamma(f)
+        with quiet():
+            views = [[float(v) for v in f.gamma_values], [float(v) for v in f.params["gamma_values"]]]
+        if g_rep != [float(v) for v in g1] or any(v != g_rep for v in views):
+            ctx.issue("violation", f"FusionART:gamma_values-reassigned({route}):not-reported",
+                      f"gamma_values {g1} handed over by '{route}'; get_params reports {g_rep}, attribute / params {views}", rep)
+            continue
+        # (1) every activation computed while training = sum of (gamma in force) * module activation
+        bad = next(((g, x, w, T, terms) for g, x, w, T, terms in log.calls
+                    if len(terms) != k or not wsum_ok(T, sum(a * g_ for a, g_ in zip(terms, g)))), None)
+        if bad:
+            g, x, w, T, terms = bad
+            ctx.issue("violation", f"FusionART.category_choice:gamma_values-reassigned({moment}):training-activation!=gamma-weighted-sum",
+                      f"gamma_values {g0} -> {g1} by '{route}' ({moment}); while training, with the estimator reporting gamma {g}: "
+                      f"activation {T!r} vs sum of gamma * module activations {terms} = {sum(a * g_ for a, g_ in zip(terms, g))!r}",
+                      dict(rep, x=x, w=w))
+        else:
+            cov.hit("regamma:training-activations-ok")
+        if len({tuple(g) for g, *_ in log.calls}) >= 2:
+            cov.hit("regamma:both-weightings-used-in-one-history")
+        # (2) the public function after training, every category, with and without withheld channels
+        Wf = f.W
+        ok = True
+        for q in range(min(3, n)):
+            x = X[r.randrange(n)]
+            sk_ = sorted(r.sample(range(k), r.randint(1, k - 1)))
+            for c in range(ncat):
+                w = np.asarray(Wf[c], dtype=float)
+                with quiet():
+                    T, _ = f.category_choice(x, w, f.params)
+                    Tsk, _ = f.category_choice(x, w, f.params, skip_channels=list(sk_))
+                    terms = [float(m.category_choice(x[off[j]:off[j + 1]], m.W[c], m.params)[0]) for j, m in enumerate(f.modules)]
+                want = sum(a * g_ for a, g_ in zip(terms, g_rep))
+                want_sk = sum((1.0 if j in sk_ else terms[j]) * g_rep[j] for j in range(k))
+                if not wsum_ok(T, want) or not wsum_ok(Tsk, want_sk):
+                    ctx.issue("violation", "FusionART.category_choice:gamma_values-reassigned:!=gamma-weighted-sum",
+                              f"gamma_values {g0} -> {g1} by '{route}' ({moment}), reported {g_rep}: category_choice {T!r} vs "
+                              f"sum of gamma * module choice {want!r} (module activations {terms}); withholding {sk_}: {Tsk!r} vs {want_sk!r}",
+                              dict(rep, x=x, c=c, skip=sk_))
+                    ok = False
+                    break
+            if not ok:
+                break
+            cov.hit("regamma:public-choice")
+        # (3) the clustering is that of an estimator holding the same modules and the same gamma vector
+        q = X[: max(1, n // 2)]
+        try:
+            sf, st = state_of(f, q), state_of(t, q)
+        except Exception as e:
+            ctx.issue("violation", f"FusionART.predict:{exc_enum(e)}", f"predict on training rows raised {e!r}", rep)
+            continue
+        if sf[0] != st[0] or sf[3] != st[3]:
+            ctx.issue("violation", f"FusionART:gamma_values-reassigned({moment}):clustering!=same-gamma-twin",
+                      f"gamma_values {g0} -> {g1} by '{route}' ({moment}): labels {sf[0]} predictions {sf[3]}; {twin_what}: "
+                      f"labels {st[0]} predictions {st[3]}", rep)
+            continue
+        if not same_W(sf[1], st[1]) or any(not same_W(a, b) for a, b in zip(sf[2], st[2])):
+            ctx.issue("violation", f"FusionART:gamma_values-reassigned({moment}):weights!=same-gamma-twin",
+                      f"gamma_values {g0} -> {g1} by '{route}' ({moment}): same labels as {twin_what}, different weights", rep)
+            continue
+        cov.hit("regamma:equals-same-gamma-twin")
+        if i < 2:
+            cov.sample({"regamma": cls, "gamma": [g0, g1], "route": route, "moment": moment, "labels": sf[0]})
+
+
 GEN_THEOREMS = ['fusion_positions', 'fusion_category_choice', 'fusion_match_criterion_bin', 'fusion_match_criterion_bin_none', 'fusion_match_bin_model', 'fusion_update', 'fusion_update_none', 'fusion_new_weight', 'fusion_add_weight', 'fusion_set_weight', 'fusion_add_weight_model', 'fusion_set_weight_model', 'fusion_match_tracking', 'fusion_W_get', 'fusion_W_get_model']
 
 
@@ -725,3 +979,4 @@ def run(ctx):
     oracle_channelwise(ctx, ctx.scale(640, 5000), ctx.scale(12, 40))
     oracle_single(ctx, ctx.scale(320, 3000), ctx.scale(12, 40))
     oracle_perm(ctx, ctx.scale(400, 3500), ctx.scale(12, 40))
+    oracle_regamma(ctx, ctx.scale(240, 2000), ctx.scale(12, 40))
